@@ -278,6 +278,8 @@ pub fn scope(name: &str) -> Scope {
         "K" => Scope::new("K", &["a", "b", ".", "^", "$"], &Q_KERNEL, true, &['a', 'b', '\n']),
         // kernel without capturing groups (language-level checks)
         "K0" => Scope::new("K0", &["a", "b", ".", "^", "$"], &Q_KERNEL, false, &['a', 'b', '\n']),
+        // the same under another name: layers with long inputs
+        "KL" => Scope::new("KL", &["a", "b", ".", "^", "$"], &Q_KERNEL, false, &['a', 'b', '\n']),
         // quantifier spellings
         "Q" => Scope::new(
             "Q",
@@ -355,6 +357,14 @@ pub fn scope(name: &str) -> Scope {
         "ALTS" => Scope::new("ALTS", &["a", "b", "(?:a|$)", "(?:^|a)", "(?:a|b?)", "(?:ab)"], &["*", "+", "?", "{1,2}", "{0,2}"], false, &['a', 'b']),
         // a repeat before a group whose body starts with an optional variable-length term
         "SEQO" => Scope::new("SEQO", &["a", "[ab]", "(?:(?:bb|b)?a)", "(?:b?a)"], &["*", "+", "?", "{1,2}"], false, &['a', 'b']),
+        // alternatives that end at the same position several times before one that ends elsewhere
+        "DUP" => Scope::new(
+            "DUP",
+            &["c", "(?:a|a|a|a|a|ab)", "(?:a|a|a|a|ab)", "(?:ab|a|a|a|a|a)"],
+            &["+", "*", "+?"],
+            false,
+            &['a', 'b', 'c'],
+        ),
         // literal prefixes that overlap themselves (prefix-scan shortcut), longer inputs
         "LP" => Scope::new("LP", &["a", "b", "aa", "ab", "aab", "aba", "abab"], &["*", "?", "+"], false, &['a', 'b']),
         // group nesting: capturing groups around / beside possibly-empty terms
@@ -396,6 +406,12 @@ pub const T_FULL: [&str; 41] = [
 
 pub const T_CORE: [&str; 20] = [
     "a", "-", "^", "$", ".", "|", "(", ")", "(?:", "[", "[^", "]", "-[", "{2}", "?", "*", "\\", "\\1", "\\d", "1",
+];
+
+/// Non-ASCII characters next to the metacharacters that give them a role
+/// (class member, range end, escape operand, quantifier operand).
+pub const T_UNI: [&str; 20] = [
+    "\u{e9}", "\u{1F600}", "\u{301}", "\u{0}", "\u{85}", "\u{2028}", "\u{FFFF}", "\u{10FFFF}", "\u{130}", "\u{df}", "[", "]", "-", "\\", "(", ")", "^", "*", "{2}", "|",
 ];
 
 pub fn tokens_to_string(alphabet: &[&str], digits: &[usize]) -> String {
